@@ -65,14 +65,14 @@ def teardown(ctx):
 
 
 def cases(ctx):
-    n = 2000 if ctx.tier == 'quick' else 100000
+    n = 2000 if ctx.tier == 'quick' else 600000
     for b in range(n // 50):
         yield {'kind': 'boundary', 'batch': b}
     for n1 in range(1, 41):
         yield {'kind': 'splitter', 'n1': n1}
-    for b in range(10 if ctx.tier == 'quick' else 400):
+    for b in range(10 if ctx.tier == 'quick' else 3000):
         yield {'kind': 'protein', 'batch': b}
-    for i in range(12 if ctx.tier == 'quick' else 600):
+    for i in range(12 if ctx.tier == 'quick' else 5000):
         yield {'kind': 'manager', 'i': i}
 
 
